@@ -304,3 +304,22 @@ M('C15', 'c15-manager-close-unguarded', [(CMG, "        connection = self.open_c
 M('C15', 'c15-destroy-closes-all', [(PLG, "        self.plugin.close_connection(connection_id)\n        return False", "        for cid in list(self.plugin.connections):\n            self.plugin.close_connection(cid)\n        return False")], 'C15.2')
 V('C15', 'c15v-pop-default', [(PLG, "        if connection_id in self.connections:\n            del self.connections[connection_id]\n", "        self.connections.pop(connection_id, None)\n")])
 V('C15', 'c15v-try-except', [(PLG, "        if connection_id in self.connections:\n            del self.connections[connection_id]\n", "        try:\n            del self.connections[connection_id]\n        except KeyError:\n            pass\n")])
+
+# ---- C13 -----------------------------------------------------------------------------------------
+RUN = 'backends/libwayland_debug_output/runner.py'
+M('C13', 'c13-shell-true', [(RUN, "            bufsize=1,\n", "            bufsize=1,\n            shell=True,\n")], 'C13.3')
+M('C13', 'c13-join-argv', [(RUN, "            self.args.command_args,\n            stderr", "            ' '.join(self.args.command_args),\n            stderr")], 'C13.3')
+M('C13', 'c13-return-zero', [(RUN, "    return subprocess.returncode", "    return 0")], 'C13.4')
+M('C13', 'c13-stdout-captured', [(RUN, "            stderr=self.stderr_fd,\n", "            stderr=self.stderr_fd,\n            stdout=self.stderr_fd,\n")], 'C13.3')
+M('C13', 'c13-no-wayland-debug', [(RUN, "        env['WAYLAND_DEBUG'] = '1'\n", "")], 'C13.3')
+M('C13', 'c13-wayland-debug-client', [(RUN, "        env['WAYLAND_DEBUG'] = '1'\n", "        env['WAYLAND_DEBUG'] = 'client'\n")], 'C13.3')
+M('C13', 'c13-fresh-env', [(RUN, "        env = os.environ.copy()\n", "        env = {'PATH': os.environ.get('PATH', '')}\n")], 'C13.3')
+M('C13', 'c13-exit-bool', [('main.py', "            exit(returncode)", "            exit(returncode != 0)")], 'C13.4')
+M('C13', 'c13-pipe-mode-own-manager', [('main.py', "            piped_input_main(output, connection_list)", "            piped_input_main(output, ConnectionManager())")], 'C13.1')
+M('C13', 'c13-file-mode-other-output', [('main.py', "file_input_main(args.load_path, output, connection_list, ui_controller, ui_controller, input_func)", "file_input_main(args.load_path, Output(False, True, stream.Std(sys.stdout), stream.Std(sys.stderr)), connection_list, ui_controller, ui_controller, input_func)")], 'C13.1')
+M('C13', 'c13-parse-after-join', [(RUN, "    with os.fdopen(readable, 'r') as spicket:\n        parse.into_sink(spicket, output, connection_id_sink)\n    thread.join(timeout=1)", "    thread.join(timeout=1)\n    with os.fdopen(readable, 'r') as spicket:\n        parse.into_sink(spicket, output, connection_id_sink)")], 'C13.4')
+M('C13', 'c13-no-close-write-end', [(RUN, "        os.close(self.stderr_fd)\n", "")], 'C13.3')
+M('C13', 'c13-read-chunks', [(PARSE, "                line = input_file.readline()\n", "                line = input_file.readline(4096)\n")], 'C13.2')
+M('C13', 'c13-mode-unhandled', [('main.py', "        elif args.mode == Mode.PIPE:\n            if args.stop_matcher != matcher.never:\n                output.warn('Ignoring stop matcher when stdin is used for messages')\n            piped_input_main(output, connection_list)\n", "")], 'C13.1')
+M('C13', 'c13-returncode-from-thread-alive', [(RUN, "        self.returncode = subprocess.run(", "        self.returncode = 0\n        self.result = subprocess.run(")], 'C13.4')
+V('C13', 'c13v-popen-keyword-order', [(RUN, "            stderr=self.stderr_fd,\n            env=env,\n", "            env=env,\n            stderr=self.stderr_fd,\n")])
